@@ -491,7 +491,35 @@ def multiout_fails(case):
     return None
 
 
+def svd_repeated_fails(case):
+    """y = sum(s*s) with (U, s, V) = svd(A) is the polynomial ||A||_F^2: its adjoint is 2 ybar A at EVERY matrix, also where
+    singular values coincide or vanish (only sbar is non-zero; the singular vectors are not used)"""
+    A = np.array(case['A'])
+    D, P = A.shape[:2]
+    yb = np.array(case['ybar'])
+    cg = algopy.CGraph()
+    fa = algopy.Function(UTPM(A.copy()))
+    try:
+        with np.errstate(all='ignore'):
+            U_, s_, V_ = algopy.svd(fa)
+            fy = algopy.sum(s_ * s_)
+            cg.trace_off()
+            cg.independentFunctionList = [fa]
+            cg.dependentFunctionList = [fy]
+            cg.pullback([UTPM(yb.copy())])
+    except Exception as ex:
+        return 'svd-repeated-exception: %s' % (type(ex).__name__ + ':' + str(ex)[:80])
+    want = (UTPM(yb.reshape(D, P, 1, 1) * np.ones(A.shape)) * UTPM(A.copy()) * 2.0).data
+    got = fa.xbar.data
+    if not np.all(np.isfinite(got)) or not close(got, want, 1e-8):
+        return ('svd-repeated: the adjoint of sum(s*s) through svd is not 2*ybar*A at a matrix with coinciding / vanishing singular '
+                'values (finite: %s, max diff %s)') % (bool(np.all(np.isfinite(got))), maxdiff(got, want))
+    return None
+
+
 def replay_case(ctx, case):
+    if case.get('op') == 'svd-repeated':
+        return svd_repeated_fails(case)
     if case.get('multiout'):
         return multiout_fails(case)
     if case.get('superpos'):
@@ -555,6 +583,19 @@ def run(ctx):
             f = revchecks.op_adjoint_fails(c2)
             if f:
                 ctx.report(c2, 'failure', f)
+    # svd at matrices with coinciding / vanishing singular values, through a function of the singular values alone
+    for A0 in ([[1., 0.], [0., 1.]], [[0., 1.], [1., 0.]], [[2., 0., 0.], [0., 1., 0.], [0., 0., 1.]], [[1., 0., 0.], [0., 1., 0.]],
+               [[1., 0., 0.], [0., 0., 0.]], [[2., 0.], [0., -2.]]):
+        for D_, P_ in ((1, 1), (2, 1), (3, 2)):
+            a0 = np.array(A0)
+            A_ = rand_coeffs(rng, (D_, P_) + a0.shape, -1, 1)
+            A_[0] = a0
+            case = {'op': 'svd-repeated', 'A': A_, 'ybar': rand_coeffs(rng, (D_, P_), -2, 2) + 0.125}
+            ctx.evaluations += 1
+            ctx.count('svd-repeated')
+            f = svd_repeated_fails(case)
+            if f:
+                ctx.report(case, 'failure', f)
     # several dependent outputs overlapping in memory
     for i in range(40 if ctx.tier == 'quick' else 400):
         case = multiout_case(rng)
